@@ -58,6 +58,7 @@ partial def loop (h : IO.FS.Stream) (out : IO.FS.Stream) (d : DState) : IO Unit 
   if line.isEmpty then return ()
   let (d', resp) := step d line
   out.putStrLn resp
+  out.flush
   loop h out d'
 
 def main : IO Unit := do
